@@ -80,6 +80,34 @@ Theorem C04_dry_report_refuted_manifest : C04_dry_report_refuted_statement run_t
 Proof. exact (C04_dry_report_refuted_all run_tables_v). Qed.
 Print Assumptions C04_dry_report_refuted_manifest.
 
+(** OS write errors are outside the whole-run theorems (they are about [try_stores], the instance of [try_stores_os] in which
+    every write succeeds: [C04_no_write_error_instance]).  With a write error in a writer that swallows it (requirements.txt,
+    setup.cfg: `open(path, "w")` truncates, the write raises, `except Exception: return None`) the dry run still promises the
+    manifest change set while the real run returns none AND leaves the manifest empty: [C04_write_failure_refuted]
+    (reproduced on the real classes with an injected ENOSPC; finding class kf_manifest_truncated_on_write_error). *)
+Theorem C04_no_write_error_instance : forall tb W cfg catches ds stores fs,
+  try_stores_os tb W cfg catches (fun _ => true) ds fs stores = try_stores tb W cfg ds fs stores.
+Proof. exact try_stores_os_ok. Qed.
+Print Assumptions C04_no_write_error_instance.
+Definition catches_of (t : list (skind * bool)) (k : skind) : bool :=
+  match find (fun kb => skind_eqb k (fst kb)) t with Some kb => snd kb | None => false end.
+Definition C04_write_failure_statement (tb : run_tables) (t : list (skind * bool)) : Prop :=
+  forall k, catches_of t k = true -> writer_guarded tb k = true ->
+    let fs := [([109%N], [9%N])] in
+    snd (try_stores_os tb toy_W (toy_cfg true []) (catches_of t) (fun _ => false) [toy_dep] fs [w_fail_store k]) <> None /\
+    snd (fst (try_stores_os tb toy_W (toy_cfg true []) (catches_of t) (fun _ => false) [toy_dep] fs [w_fail_store k])) = fs /\
+    snd (try_stores_os tb toy_W (toy_cfg false []) (catches_of t) (fun _ => false) [toy_dep] fs [w_fail_store k]) = None /\
+    lookup (snd (fst (try_stores_os tb toy_W (toy_cfg false []) (catches_of t) (fun _ => false) [toy_dep] fs [w_fail_store k]))) [109%N] = Some [].
+Theorem C04_write_failure_refuted : C04_write_failure_statement run_tables_v writer_catch_table.
+Proof.
+  intros k Hc Hg fs. destruct (write_failure_witness run_tables_v k (catches_of writer_catch_table) Hc Hg) as [H1 [H2 H3]].
+  fold fs in H1, H2, H3. rewrite H1. repeat split; auto. discriminate.
+Qed.
+Print Assumptions C04_write_failure_refuted.
+(** the statement is not vacuous on the current source: requirements.txt and setup.cfg writers swallow the error *)
+Example C04_write_failure_kinds : catches_of writer_catch_table SReqTxt = true /\ catches_of writer_catch_table SSetupCfg = true.
+Proof. split; reflexivity. Qed.
+
 (** Non-vacuity: the current tables are dry-guarded; a project with a manifest that is NOT rewritten meets the
     hypotheses of [C04_dry_report] and the dry run reports a source change set plus a manifest change set. *)
 Example C04_example_guard_and_report :
